@@ -992,6 +992,9 @@ def explore_case(C: Contract, case_idx: int, case: Dict[str, Shape], max_paths=N
                 except RecursionError as e:
                     raise Unsupported(f"recursion: {e}")
                 except Exception as e:  # pylint: disable=broad-except
+                    gap = ghost_gap(e)
+                    if gap:
+                        raise Unsupported(gap)
                     outcome = ("raise", e)
                 outcomes[outcome[0]] += 1
                 _check_outcome(C, c, env, outcome)
@@ -1057,6 +1060,19 @@ def _check_outcome(C: Contract, c: Ctx, env: dict, outcome):
             if os.environ.get("PYVC_DUMP"):
                 traceback.print_exception(type(exc), exc, exc.__traceback__, file=sys.stderr)
             c.check(False, f"no-exception:{label}@{where}", kind="noexc", note=f"{type(exc).__name__}: {str(exc)[:200]}")
+
+
+def ghost_gap(exc):
+    """An AttributeError raised because a STAND-IN collaborator of a data-flow lemma (an object or class defined in a
+    contracts module) lacks an attribute the code under verification now uses is a gap of the stand-in, not a failure
+    of the code: the case is UNDECIDED, never a violation."""
+    if isinstance(exc, AttributeError):
+        obj = getattr(exc, "obj", None)
+        cls = obj if isinstance(obj, type) else type(obj)
+        mod = getattr(cls, "__module__", "") or ""
+        if obj is not None and (mod.startswith("contracts.") or mod == "contracts"):
+            return f"stand-in {cls.__name__} (contracts) has no attribute {getattr(exc, 'name', '?')!r}: the data-flow lemma's collaborators do not model what the code uses now"
+    return None
 
 
 def _neg(v):
